@@ -19,7 +19,7 @@ Notation enum := (enum lit re_search tm o).
 (* a hit produced by the container [tgt] itself for its child reference [r] *)
 Definition local (tgt : node) (r : ref) (k : hkind) : Prop :=
   match k with
-  | HVal => o_values o = true /\ exists i v, child_at tgt r (NLeaf i v) /\ satb v = true
+  | HValue => o_values o = true /\ exists i v, child_at tgt r (NLeaf i v) /\ satb v = true
   | HKey => o_keys o = true /\
             exists i kvs kn v, tgt = NMap i kvs /\ In (kn, v) kvs /\ r = key_ref kn /\ satb (key_val kn) = true
   | HMember => exists i els m, tgt = NSet i els /\ In m els /\ r = member_ref m /\ satb (key_val m) = true
@@ -115,16 +115,16 @@ Proof.
   - (* HKey *)
     intros [Hk [i [kvs [kn [v [-> [Hin [-> Hs]]]]]]]].
     eapply key_hit_covers; eauto. rewrite Hk, Hs. reflexivity.
-  - (* HVal *)
+  - (* HValue *)
     intros [Hv [i [v [Hc Hs]]]]. inversion Hc; subst.
     + destruct (o_keys o && satb (key_val k)) eqn:Ek.
       * eapply key_hit_covers; eauto.
       * destruct (In_nth _ _ H) as [j Hn].
-        exists (lc ++ [key_ref k])%list, HVal, [key_ref k]. split.
+        exists (lc ++ [key_ref k])%list, HValue, [key_ref k]. split.
         -- simpl. apply In_floop. exists j, (k, NLeaf i v). split; auto. unfold entry_enum. simpl fst. simpl snd.
            rewrite Ek. unfold val_enum. simpl. rewrite Hv, Hs. left; reflexivity.
         -- split; [reflexivity|]. split; [exists []; reflexivity|]. left; auto.
-    + exists (lc ++ [RIdx idx])%list, HVal, [RIdx idx]. split.
+    + exists (lc ++ [RIdx idx])%list, HValue, [RIdx idx]. split.
       * simpl. apply In_floop. exists idx, (NLeaf i v). split; auto. unfold val_enum. simpl.
         rewrite Hv, Hs. left; reflexivity.
       * split; [reflexivity|]. split; [exists []; reflexivity|]. left; auto.
